@@ -8,6 +8,7 @@ Correspondence between the Lean model `Scico.Model.ProxCalc` (constructor tree o
 from __future__ import annotations
 
 import json
+import os
 
 import numpy as np
 
@@ -543,7 +544,7 @@ def build_sql2(scico, case):
     import scico.numpy as snp
 
     cplx = case["cplx"]
-    dt = np.complex128 if cplx else np.float64
+    dt = G.cdt() if cplx else G.rdt()
     n, m = case["n"], case["m"]
     k = case["kind"]
     if k == "ident":
@@ -551,13 +552,13 @@ def build_sql2(scico, case):
     elif k == "sid":
         A = linop.ScaledIdentity(complex(G.unil(b2fs(case["s"]), cplx)[0]) if cplx else float(b2fs(case["s"])[0]), (n,), input_dtype=dt)
     elif k == "diag":
-        A = linop.Diagonal(snp.array(G.unil(b2fs(case["d"]), cplx)), input_dtype=dt)
+        A = linop.Diagonal(snp.array(G.unil(b2fs(case["d"]), cplx).astype(dt)), input_dtype=dt)
     elif k == "mat":
-        A = linop.MatrixOperator(snp.array(np.stack([G.unil(b2fs(r), cplx) for r in case["M"]])), input_cols=0)
+        A = linop.MatrixOperator(snp.array(np.stack([G.unil(b2fs(r), cplx) for r in case["M"]]).astype(dt)), input_cols=0)
     else:
         A = linop.SingleAxisFiniteDifference((n,), input_dtype=dt, axis=0, circular=True)
-    y = snp.array(G.unil(b2fs(case["y"]), cplx))
-    W = None if case["w"] is None else linop.Diagonal(snp.array(np.asarray(b2fs(case["w"]))), input_dtype=np.float64)
+    y = snp.array(G.unil(b2fs(case["y"]), cplx).astype(dt))
+    W = None if case["w"] is None else linop.Diagonal(snp.array(np.asarray(b2fs(case["w"])).astype(G.rdt())), input_dtype=G.rdt())
     hist = case.get("history") or {"before": [], "after": []}
     _other_losses(hist["before"])
     L = loss.SquaredL2Loss(y=y, A=A, scale=b2f(case["scale"]), W=W, prox_kwargs=_own_kw(case))
@@ -1078,6 +1079,128 @@ def run_kwargs(ctx, model, scico):
         done += 1
 
 
+def run_default_precision(ctx, model, scico):
+    """the library's DEFAULT precision (no jax_enable_x64; float32 / complex64 data and operators): a worker subprocess builds a sample
+    of wrapper trees and SquaredL2Loss cases (closed form and CG path with its default tol = 1e-5) and computes flags, f(x), prox.
+    Required: nothing raises that does not raise in x64 (same error kind), flags are the same, results stay 32-bit, values agree
+    with the x64 results at a float32 relative tolerance (prox on the CG path: residual-free comparison at 5e-3).  Each
+    disagreement is passed through the property oracle (documented formula / objective) before it is reported."""
+    import subprocess
+    import sys
+
+    trees = []
+    while len(trees) < ctx.n(40, 200):
+        case = gen_tree_case(ctx, "valid")
+        if "lin" in json.dumps(case["t"]) and False:
+            continue
+        trees.append(case)
+    sql2 = [gen_sql2_case(ctx) for _ in range(ctx.n(16, 80))]
+    for c_ in sql2:
+        c_.pop("rescale", None)
+    p = subprocess.run([sys.executable, str(common.VERIF / "harness" / "proxcalc_f32_worker.py")],
+                       input=json.dumps({"repo": str(common.REPO), "trees": trees, "sql2": sql2}), capture_output=True, text=True,
+                       env={k_: v_ for k_, v_ in os.environ.items() if k_ != "JAX_ENABLE_X64"})
+    if p.returncode != 0:
+        raise common.Infra("default-precision worker failed: " + p.stderr[-1200:])
+    res = json.loads(p.stdout)
+    F32 = ("float32", "complex64", "int32")  # (count_nonzero of L0Norm is an int32 in default precision)
+
+    def close32(a, b, rt=2e-4):
+        a, b = np.asarray(a, dtype=float).ravel(), np.asarray(b, dtype=float).ravel()
+        if a.shape != b.shape:
+            return False
+        fin = np.isfinite(a) & np.isfinite(b)
+        if not np.array_equal(np.isfinite(a), np.isfinite(b)):
+            return False
+        sc = 1 + (float(np.max(np.abs(b[fin]))) if fin.any() else 0.0)
+        return bool(np.all(np.abs(a[fin] - b[fin]) <= rt * sc * max(1.0, np.sqrt(a.size))))
+
+    for case, rec in zip(trees, res["trees"]):
+        cplx = case["cplx"]
+        shape = G.norm_shape(case["shape"])
+        obj, info = G.build(scico, case)
+        ctx.case({"default-precision": G.tree_sig(case["t"]), "cplx": cplx}, ("f32", G.tree_sig(case["t"]), cplx) if G.tree_depth(case["t"]) >= 1 else None)
+        ctx.count("default-precision:tree")
+        if obj is TypeError:
+            if rec.get("build") != "type":
+                ctx.disagree("f32.construct", case, rec.get("build"), "type")
+            continue
+        bad = []
+        if "build" in rec:
+            bad.append(("construction raises in default precision", rec["build"]))
+        else:
+            x = G.arg_to_scico(case["x"], shape, cplx)
+            v = G.arg_to_scico(case["v"], shape, cplx)
+            lam = b2f(case["lam"])
+            e64 = _impl(lambda: float(obj(x)))
+            p64 = _impl(lambda: G.arg_flat(obj.prox(v, lam), cplx))
+            cg = "Ql" in G.tree_sig(case["t"])
+            if rec["flags"] != [bool(obj.has_eval), bool(obj.has_prox)]:
+                bad.append(("flags differ from x64", rec["flags"]))
+            if rec["eval"][0] != e64[0] or (e64[0] == "err" and not rec["eval"][1].startswith(e64[1])):
+                bad.append(("f(x): raises / returns differently from x64", rec["eval"]))
+            elif e64[0] == "ok":
+                if not close32([rec["eval"][1]], [e64[1]], 5e-4):
+                    bad.append(("f(x) differs from the x64 value beyond float32 accuracy", [rec["eval"][1], e64[1]]))
+                if rec.get("eval_dtype") not in F32 + ("python",):
+                    bad.append(("f(x) is not a 32-bit value", rec.get("eval_dtype")))
+            if rec["prox"][0] != p64[0] or (p64[0] == "err" and not rec["prox"][1].startswith(p64[1])):
+                bad.append(("prox: raises / returns differently from x64", rec["prox"] if rec["prox"][0] == "err" else rec["prox"][0]))
+            elif p64[0] == "ok":
+                if not close32(rec["prox"][1], p64[1], 5e-3 if cg else 5e-4):
+                    bad.append(("prox differs from the x64 result beyond float32 accuracy", [rec["prox"][1], np.asarray(p64[1]).tolist()]))
+                if any(d_ != ("complex64" if cplx else "float32") for d_ in rec.get("prox_dtypes", [])):
+                    bad.append(("prox result is not of the 32-bit dtype of its argument", rec.get("prox_dtypes")))
+        if bad:
+            def oracle(c_, bad=bad, rec=rec):
+                # the property on the default-precision results: documented formula for f(x); any raise / dtype change is a failure by itself
+                fail = {"mode": "default precision (jax_enable_x64 off, float32/complex64)", "what": bad[0][0], "details": [list(map(str, b_))[:2] for b_ in bad][:3]}
+                try:
+                    want = G.np_eval(c_, _blocks_of(c_, c_["x"]))
+                    if "eval" in rec and rec["eval"][0] == "ok":
+                        fail["formula"] = want
+                        fail["f32 value"] = rec["eval"][1]
+                except G.NotAvail:
+                    pass
+                return fail
+            ctx.disagree("f32.tree", case, [b_[0] for b_ in bad], "as in x64 within float32 accuracy", oracle=oracle)
+    for case, rec in zip(sql2, res["sql2"]):
+        cplx = case["cplx"]
+        ctx.case({"default-precision": "sql2", "kind": case["kind"], "cplx": cplx}, ("f32-sql2", case["kind"], cplx, case["w"] is not None))
+        ctx.count("default-precision:sql2:" + case["kind"])
+        bad = []
+        if "build" in rec:
+            bad.append(("construction raises in default precision", rec["build"]))
+        else:
+            L, A = build_sql2(scico, case)
+            import scico.numpy as snp
+
+            v = snp.array(G.unil(b2fs(case["v"]), cplx))
+            lam = b2f(case["lam"])
+            exact = case["kind"] in ("ident", "sid", "diag")
+            tol = _expected_kw(case)["tol"]
+            if rec["flags"] != [bool(L.has_eval), bool(L.has_prox)]:
+                bad.append(("flags differ from x64", rec["flags"]))
+            if {k_: float(v_) for k_, v_ in rec["kwargs"].items()} != {k_: float(v_) for k_, v_ in _expected_kw(case).items()}:
+                bad.append(("prox_kwargs differ", rec["kwargs"]))
+            e64 = float(L(v))
+            if rec["eval"][0] != "ok" or not close32([rec["eval"][1]], [e64], 5e-4) or rec.get("eval_dtype") not in F32:
+                bad.append(("f(x) raises / differs / is not 32-bit", [rec["eval"], rec.get("eval_dtype"), e64]))
+            p64 = G.il(np.asarray(L.prox(v, lam)), cplx)
+            # CG in float32 with tol (default 1e-5): accuracy of the solution is bounded by max(tol, float32 eps) times the conditioning
+            rt = 5e-4 if exact else max(5e-3, 50 * tol)
+            if rec["prox"][0] != "ok" or not close32(rec["prox"][1], p64, rt) or rec.get("prox_dtypes") != ["complex64" if cplx else "float32"]:
+                bad.append(("prox raises / differs from x64 beyond float32 accuracy / is not 32-bit",
+                            [rec["prox"][0], rec.get("prox_dtypes"), rec["prox"][1] if rec["prox"][0] == "ok" else rec["prox"][1], np.asarray(p64).tolist()]))
+            h64 = G.il(np.asarray(L.hessian(v)), cplx)
+            if rec["hessian"][0] != "ok" or not close32(rec["hessian"][1], h64, 5e-4):
+                bad.append(("hessian raises / differs", rec["hessian"][0]))
+        if bad:
+            ctx.disagree("f32.sql2", case, [b_[0] for b_ in bad], "as in x64 within float32 accuracy",
+                         oracle=lambda c_, bad=bad: {"mode": "default precision (jax_enable_x64 off, float32/complex64)", "what": bad[0][0],
+                                                     "details": [str(b_[1])[:400] for b_ in bad][:3]})
+
+
 def run_unit_factor(ctx, scico):
     """`1 * L`, `L * 1.0`, `L / 1`, ... are independent copies: rescaling the product in place leaves L alone (5 loss classes x
     6 ways of writing the unit factor; a history on the same objects)"""
@@ -1226,6 +1349,7 @@ def correspond(ctx, model):
         run_tree_case(ctx, model, scico, case, oracle, "rescale-chain")
     run_sql2_weights_shape(ctx, model, scico)
     run_scale_kinds(ctx, model, scico)
+    run_default_precision(ctx, model, scico)
     run_sep_plain(ctx, model, scico)
     run_kwargs(ctx, model, scico)
     run_unit_factor(ctx, scico)
